@@ -101,6 +101,56 @@ int main() {
 """
 
 
+def rel_programs(r, n):
+    """tasks driven by run_event_loop(): workers with a counted loop, optionally an await of a child task, then an end line.
+    Oracle (schedule-independent part of the property): every task prints exactly its own lines, in its own order, exactly
+    once; a worker's end line comes after its child's last line; every task finishes before run_event_loop() returns; two
+    runs are identical.  (Which task runs when is judged by the model-based suites; here main spawns the workers one statement at
+    a time, so the early turns depend on the spawn positions.)"""
+    out = []
+    for k in range(n):
+        nw = r.range(2, 4)
+        ws = []
+        for i in range(nw):
+            ws.append({"name": "W%d" % i, "n": r.range(0, 4), "child": r.chance(55) if k % 4 else False, "yields": r.below(2)})
+        L = ["async int child(int k) {\n    println(\"child {k} a\");\n    println(\"child {k} b\");\n    return k * 10;\n}\n"]
+        for w in ws:
+            body = "    for (int i = 0; i < %d; i = i + 1) {\n        println(\"%s {i}\");\n    }\n" % (w["n"], w["name"])
+            if w["yields"]:
+                body += "    yield;\n    println(\"%s mid\");\n" % w["name"]
+            if w["child"]:
+                body += "    int v = await child(%d);\n    println(\"%s end {v}\");\n" % (100 + int(w["name"][1:]), w["name"])
+            else:
+                body += "    println(\"%s end\");\n" % w["name"]
+            L.append("async void f%s() {\n%s}\n" % (w["name"], body))
+        L.append("void main() {\n" + "".join("    f%s();\n" % w["name"] for w in ws) + "    println(\"main: run\");\n    run_event_loop();\n    println(\"main: done\");\n}\n")
+        out.append((ws, "".join(L)))
+    return out
+
+
+def rel_judge(ws, stdout, cls):
+    lines = [l for l in stdout.split("\n") if l]
+    if cls != "ok":
+        return "program ended with %s" % cls
+    if not lines or lines[-1] != "main: done":
+        return "run_event_loop() did not return after all tasks (last line %r)" % (lines[-1] if lines else "")
+    for w in ws:
+        nm = w["name"]
+        exp = ["%s %d" % (nm, i) for i in range(w["n"])] + (["%s mid" % nm] if w["yields"] else [])
+        cid = 100 + int(nm[1:])
+        exp += ["%s end %d" % (nm, cid * 10)] if w["child"] else ["%s end" % nm]
+        got = [l for l in lines if l.startswith(nm + " ")]
+        if got != exp:
+            return "task %s printed %s, its body prints %s" % (nm, got, exp)
+        if w["child"]:
+            cg = [l for l in lines if l.startswith("child %d " % cid)]
+            if cg != ["child %d a" % cid, "child %d b" % cid]:
+                return "child of %s printed %s" % (nm, cg)
+            if lines.index("child %d b" % cid) > lines.index("%s end %d" % (nm, cid * 10)):
+                return "%s resumed before its awaited child had finished" % nm
+    return None
+
+
 def main(a):
     v = common.Verdict(PID, a.tier, a.seed)
     common.run_translators(v, ["sleep"])
@@ -167,6 +217,21 @@ def main(a):
     r = Rng(a.seed, 151)
     run_suite("random", [sched.gen_program(r) for _ in range(300 if quick else 60000)])
     run_suite("random-large", [sched.gen_program(r, max_funcs=6, size=10) for _ in range(60 if quick else 10000)])
+    # tasks driven by run_event_loop() (SimpleEventLoop::run, a driver outside the modelled machine): oracle from the property
+    rl = rel_programs(r, 60 if quick else 6000)
+    ro1 = common.run_programs(exe, [p for _, p in rl], timeout=10)
+    ro2 = common.run_programs(exe, [p for _, p in rl], timeout=10)
+    dist["run-event-loop"] = len(rl)
+    for (ws, src), x, y in zip(rl, ro1, ro2):
+        nontrivial.add(("rel", hash(src) % 1000003))
+        why = rel_judge(ws, x[0], x[1])
+        if why is None and (x[0] != y[0] or x[1] != y[1]):
+            why = "two runs gave different output (scheduling is not deterministic)"
+        if why:
+            if os.environ.get("CB_VERIF_CENSUS"):
+                common.log("CENSUS rel: %s | %s" % (why, x[0].replace("\n", " / ")[:300]))
+                continue
+            report("run-event-loop", why, {"program": src, "impl_stdout": x[0], "impl_exit_class": x[1], "impl_stderr": x[2][-300:]})
     # sleep grid
     grid = [0, 1, 2, 5, 10, 20, 35, 60] if quick else list(range(0, 61, 3)) * 3
     sp = [SLEEP_PROG % (ms, r.range(1, 6), (ms * 7) % 23, (ms * 7) % 23) for ms in grid]
@@ -194,5 +259,8 @@ def main(a):
         "exhaustive": not quick})
     v.assumptions += ["the fragment has suspension points at top-level statements and top-level loop iterations only (yield "
                       "inside nested blocks is the subject of C14's findings)",
-                      "wall-clock: sleep programs are judged by inequalities only (elapsed >= ms), never by exact times"]
+                      "wall-clock: sleep programs are judged by inequalities only (elapsed >= ms), never by exact times",
+                      "run_event_loop() (SimpleEventLoop::run) is not part of the modelled machine: the suite run-event-loop judges stdout by "
+                      "the schedule-independent part of the property (each task's own lines once and in order, await after the child's end, "
+                      "all tasks finished, determinism)"]
     return v.finish()
